@@ -1288,6 +1288,18 @@ func (*c19) Gen(rng *RNG, tier string) []Case {
 		for _, h := range hs {
 			g.add(h, c19GoodKinds)
 		}
+		if rng.Chance(1, 2) {
+			// the same host name with another port (or none): another registry, which has no entry of its own unless it
+			// happens to be in the file too (seed C11-16: a fallback from host:port to the bare host)
+			sib := hs[0] + ":5000"
+			if i := strings.LastIndexByte(hs[0], ':'); i >= 0 {
+				sib = hs[0][:i]
+				if rng.Bool() {
+					sib += ":8443"
+				}
+			}
+			hs = append(hs, sib)
+		}
 		g.lookup(hs...)
 		cases = append(cases, g.finish("plain"))
 	}
